@@ -586,6 +586,38 @@ class Machine:
         self.cache = {}
         return ["user_change:" + op["what"]]
 
+    def op_edit_mans(self, op):
+        """The USER edits the maneuver list of the shared orbit IN PLACE (`orb.maneuvers` is a list: append, +=, pop,
+        clear) after it has been propagated: every later result must equal what a never-used orbit carrying the
+        edited list gives.  (Analytical CW propagator only, where the contract with maneuvers is exact.)"""
+        if self.kind != "cw":
+            return ["skip"]
+        init = dict(self.case["init"])
+        mans = [dict(m) for m in init.get("mans", [])]
+        how = op["how"]
+        if how in ("pop", "clear") and not mans:
+            how = "append"
+        if how in ("append", "iadd"):
+            end = max([m["t_us"] + m.get("dur_us", 0) for m in mans] + [0])
+            m = dict(type="imp", t_us=end + op["gap_us"], dv=op["dv"])
+            mans.append(m)
+            new = make_mans(dict(mans=[m]))
+            if how == "append":
+                self.obj.maneuvers.append(new[0])
+            else:
+                self.obj.maneuvers += new
+        elif how == "pop":
+            mans.pop()
+            self.obj.maneuvers.pop()
+        else:
+            mans = []
+            self.obj.maneuvers.clear()
+        init["mans"] = mans
+        self.case = dict(self.case, init=init)
+        self.snap = snapshot(self.obj)
+        self.cache = {}
+        return ["edit_mans:" + how]
+
     def other_case(self):
         """Another orbit of the same kind, built the same way (same propagator spelling)."""
         oc = dict(self.case)
@@ -732,7 +764,7 @@ class Machine:
 def op_strategy(draw, kind, h_us, span_us):
     name = draw(st.sampled_from(["propagate", "iter_range", "iter_range", "iter_range", "iter_dates", "iter_daterange",
                                  "ephem", "iter_listeners", "rebind", "rebind_other", "partial", "iter_own", "kick", "user_change",
-                                 "clone_self", "interleave"]))
+                                 "clone_self", "interleave"] + (["edit_mans", "edit_mans"] if kind == "cw" else [])))
 
     def t():
         # one in four on the grid of the integration / tabulation step (ephemeris nodes, integration points)
@@ -741,6 +773,10 @@ def op_strategy(draw, kind, h_us, span_us):
             return k * h_us
         return draw(go.uniform_int(-span_us, span_us)) if kind != "ephem" else draw(go.uniform_int(0, span_us))
 
+    if name == "edit_mans":
+        return dict(op=name, how=draw(st.sampled_from(["append", "append", "iadd", "pop", "clear"])),
+                    gap_us=draw(st.sampled_from([h_us, 2 * h_us]) | go.uniform_int(1, 5 * h_us)),
+                    dv=[round(draw(go.uniform(-0.5, 0.5)), 4) for _ in range(3)])
     if name == "clone_self":
         return dict(op=name, how=draw(st.sampled_from(["copy", "deepcopy", "pickle", "own"])))
     if name == "user_change":
